@@ -43,7 +43,7 @@ class Gen:
     def __init__(self, rng, features=None, size=None):
         self.rng = rng
         self.f = {"segments": True, "macros": True, "loops": True, "ifs": True, "imports": True, "vars": True, "align": True,
-                  "pcset": True, "text": True, "super": True}
+                  "pcset": True, "text": True, "super": True, "idioms": True}
         if features:
             self.f.update(features)
         self.n = 0
@@ -56,6 +56,8 @@ class Gen:
         self.files = {}
         self.stats = {"kinds": {}, "max_depth": 0, "nested_constructs": 0}
         self.imported_names = []
+        self.tail = []               # statements appended at the very end (late definitions that earlier code refers to)
+        self.nscoped = 0
 
     def fresh(self, p):
         self.n += 1
@@ -85,6 +87,8 @@ class Gen:
         if nodefs and (0.40 <= r < 0.52 or 0.58 <= r < 0.66):
             # an `.if` branch is not a scope: what it defines would only exist when the branch is taken
             r = 0.0
+        if f.get("idioms") and not scope.in_macro and not nodefs and self.budget > 4 and self.rng.random() < 0.04:
+            return self.idiom(scope, depth)
         if r < 0.30:
             return self.instr(scope)
         if r < 0.40:
@@ -174,6 +178,56 @@ class Gen:
             return ("text", self.rng.choice(["hi", "A", "mos 6502", "x{c}y"]))
         return self.instr(scope)
 
+    # ---------------------------------------------------------------- idioms (shapes that plain random choice almost never builds)
+    def idiom(self, scope, depth):
+        rng = self.rng
+        self.budget -= 3
+        if rng.random() < 0.55 or not self.f["imports"] or self.nscoped >= 2:
+            # `.if` on a constant that is only defined at the end of the file (possibly through another late constant), whose
+            # not-selected branch defines a constant / a label that other code observes (defined(..), a same-named outer label)
+            self.kind("idiom_late_condition")
+            k = self.fresh("late")
+            val = rng.choice([0, 1, 1, 2])
+            if rng.random() < 0.6:
+                k0 = self.fresh("late")
+                self.tail += [("raw", ".const %s = %s" % (k, k0)), ("raw", ".const %s = %d" % (k0, val))]
+            else:
+                self.tail.append(("raw", ".const %s = %d" % (k, val)))
+            g = self.fresh("g")
+            lbl = rng.choice(["sh", "t", self.fresh("l")])
+            if lbl not in scope.labels and rng.random() < 0.7:
+                scope.labels.append(lbl)
+                outer = [("raw", "%s: nop" % lbl)]
+            else:
+                outer = []
+            taken = [("instr0", rng.choice(IMPLIED)), self.instr(scope)]
+            other = [("raw", ".const %s = 1" % g), ("instr0", rng.choice(IMPLIED))]
+            if val:
+                first = ("raw_if", k, taken, other)
+            else:
+                first = ("raw_if", k, other, taken)
+            inner_taken = [("instr_imm_raw", "lda", "1")]
+            inner_other = [("raw", "%s: lda #2" % lbl)]
+            second = ("braces", [("raw_if", k, inner_taken, inner_other) if val else ("raw_if", k, inner_other, inner_taken),
+                                 ("raw", "jmp %s" % lbl)]) if outer else ("instr0", "nop")
+            observer = ("raw_if", "defined(%s)" % g, [("raw", ".byte $ff")], None)
+            return ("seq", outer + [first, second, observer])
+        # an aliased wildcard import inside a nested scope, used inside, and observed from outside / repeated in a sibling scope
+        self.kind("idiom_scoped_alias_import")
+        self.nscoped += 1
+        i = 10 + self.nscoped
+        fname = "lib%d.asm" % i
+        ns = "cfg%d" % self.nscoped
+        self.files[fname] = "x%d: .byte 1, 2\ny%d: rts\n.const k%d = %d\n" % (i, i, i, rng.choice([3, 255, 256]))
+        use = [("raw", ".import * as %s from \"%s\"" % (ns, fname)), ("raw", "lda %s.x%d" % (ns, i)), ("raw", "ldx #%s.k%d" % (ns, i))]
+        first = ("braces", use)
+        rest = []
+        if rng.random() < 0.5:
+            rest.append(("braces", [("raw", ".import * as %s from \"%s\"" % (ns, fname)), ("raw", "jsr %s.y%d" % (ns, i))]))
+        if rng.random() < 0.7:
+            rest.append(("raw_if", "defined(%s.x%d)" % (ns, i), [("raw", ".byte $ee")], [("raw", ".byte $dd")]))
+        return ("seq", [first] + rest)
+
     def instr(self, scope):
         r = self.rng.random()
         if r < 0.25:
@@ -258,7 +312,7 @@ class Gen:
         # macro definitions and imports go to random places at the top level
         for extra in macro_defs + imports:
             body.insert(rng.randint(0, len(body)), extra)
-        top += body
+        top += body + self.tail
         lines = []
         for s in top:
             self.render(s, 0, lines, self.root)
@@ -446,6 +500,20 @@ class Gen:
             out.append('%s.text "%s"' % (p, t))
         elif k == "import":
             out.append("%s.import %s" % (p, s[1]))
+        elif k == "raw":
+            out.append(p + s[1])
+        elif k == "seq":
+            for t in s[1]:
+                self.render(t, ind, out, scope)
+        elif k == "raw_if":
+            out.append("%s.if %s {" % (p, s[1]))
+            for t in s[2]:
+                self.render(t, ind + 1, out, scope)
+            if s[3] is not None:
+                out.append(p + "} else {")
+                for t in s[3]:
+                    self.render(t, ind + 1, out, scope)
+            out.append(p + "}")
         else:
             raise ValueError(k)
 
